@@ -55,6 +55,9 @@ SCALARS = {
     # an enumeration next to its own plain value type: the encoder must tell the member from the plain value
     "union-strenum-str": {"anyOf": [{"$ref": "#/components/schemas/Flavor"}, {"type": "string"}]},
     "union-intenum-int": {"anyOf": [{"$ref": "#/components/schemas/Level"}, {"type": "integer"}]},
+    # lists whose items are unions with a member that needs a transform (the encoder's loop variable takes several types)
+    "list-union-model-str": {"type": "array", "items": {"oneOf": [{"$ref": "#/components/schemas/Leaf"}, {"type": "string"}]}},
+    "list-nullable-date": {"type": "array", "items": {"type": ["string", "null"], "format": "date"}},
 }
 DEFAULTS = {"str": "dflt", "int": 7, "num": 1.5, "bool": True, "strenum": "a", "const": "fixed", "date": "2020-01-02"}
 
